@@ -32,3 +32,10 @@ pub use self::{
 pub fn new() -> ServerBuilder {
     ServerBuilder::default()
 }
+
+/// Verification hooks; compiled only with `--cfg actix_net_verif`.
+#[cfg(actix_net_verif)]
+#[doc(hidden)]
+pub mod verif {
+    pub use crate::{accept::verif::*, socket::MioStream, worker::verif::*};
+}
